@@ -207,6 +207,9 @@ def run(ck):
     from . import c16
     c16.r3(ck, rule="C09-R4")
 
+    # ---- R5: the log stores names only, so the log is compared with the series by name only ------------------------------------------
+    r5_names_only(ck, cmd_push, sap)
+
     # ---- R3 ------------------------------------------------------------------------------------------
     bad, abort_reach = effect_tables(ck)
     br, fi = noninterf.analyse_function(prog, cg, cmd_push, bad, abort_reach)
@@ -217,6 +220,57 @@ def run(ck):
     if not fi:
         for b in br:
             ck.ok("C09-R3", "branch on %s at bb%d in cmd_push" % (b[1], b[0]), "region of %d blocks is print-only and re-joins" % b[2])
+
+
+SERIES_PATCH = "rapidquilt::apply::SeriesPatch"
+COMPARING = ("eq", "ne", "starts_with", "ends_with", "contains", "strip_prefix", "strip_suffix", "cmp", "partial_cmp", "lt", "le", "gt", "ge",
+             "binary_search", "dedup", "max", "min", "sort", "sort_unstable")
+
+
+def r5_names_only(ck, cmd_push, sap):
+    """An entry read back from .pc/applied-patches is a bare name (strip level and direction are the defaults of the reader, not
+    what the series said), so the next invocation may compare log entries with series entries by name only."""
+    prog = ck.prog
+    rule = "C09-R5"
+    # (a) what the log writer reads of an entry is its name
+    if sap is not None:
+        fields = set()
+        for fn in [sap] + [f for f in prog.fns.values() if f.kind == "Closure" and f.id.startswith(sap.id + "::")]:
+            for b in fn.blocks:
+                for pr in _projs([b["stmts"], b["term"]], SERIES_PATCH):
+                    fields.add(pr["name"])
+        ck.require(fields == {"filename"}, rule, "the log records the name of a patch and nothing else",
+                   "save_applied_patches reads %s of a series entry" % sorted(fields), sap.where(), ok_detail="only .filename is read")
+    # (b) no comparison of whole entries anywhere in the tool
+    n = 0
+    for fn in sorted(prog.fns.values(), key=lambda f: f.id):
+        if fn.crate != "rapidquilt" or "SeriesPatch as core::" in fn.id:
+            continue
+        for bb, t in fn.calls():
+            if fn.blocks[bb]["cleanup"]:
+                continue
+            rp = callee_of(t).get("rpath") or ""
+            last = rp.split("::")[-1]
+            if last in COMPARING and any(SERIES_PATCH in a for a in t["argtys"]) and not any("closure" in a for a in t["argtys"]):
+                ck.violate(rule, "series entries and log entries are compared by name",
+                           "%s compares whole SeriesPatch values with %s: an entry read back from .pc/applied-patches has the reader's default strip "
+                           "level and direction, so a series entry with -pN or -R never equals its own record" % (fn.id, rp), fn.where(t))
+            if last in ("eq", "ne") and len(t["args"]) == 2 and (fn.id == cmd_push.id or fn.id.startswith(cmd_push.id + "::")) and \
+                    all("std::path::PathBuf" in a or "std::path::Path" in a for a in t["argtys"]):
+                n += 1
+    ck.floor(rule, "comparisons of path names in cmd_push (the series / log consistency test)", n, 1)
+
+
+def _projs(x, adt):
+    if isinstance(x, list):
+        for v in x:
+            yield from _projs(v, adt)
+    elif isinstance(x, dict):
+        if x.get("adt") == adt and "name" in x:
+            yield x
+        for v in x.values():
+            if isinstance(v, (list, dict)):
+                yield from _projs(v, adt)
 
 
 def effect_tables(ck):
